@@ -10,6 +10,7 @@ import (
 	"time"
 
 	"github.com/couchbase/gocbcore/v10"
+	"github.com/couchbase/gocbcore/v10/memd"
 
 	dcp "github.com/Trendyol/go-dcp"
 	"github.com/Trendyol/go-dcp/config"
@@ -28,6 +29,7 @@ type c13WireArg struct {
 	Seed       int64
 	Mitigation bool
 	CbMembers  bool // couchbase membership (else static)
+	SlowGets   bool // the node answers reads of instance documents after 150 ms: a monitor round is always in flight
 }
 
 type c13WireRes struct {
@@ -155,6 +157,14 @@ func runC13Wire(a c13WireArg) *c13WireRes {
 	w.Node.SetObserveFunc(func(v uint16, reqUUID uint64, nth int) simnode.ObserveState {
 		return simnode.ObserveState{VbUUID: uint64(100 + v), PersistSeqNo: 1 << 30, CurrentSeqNo: 1 << 30}
 	})
+	if a.SlowGets {
+		w.Node.SetBehaviourFunc(func(req *simnode.Request) *simnode.Behaviour {
+			if req.Opcode == memd.CmdGet && strings.Contains(string(req.Key), ":instance:") && !strings.HasSuffix(string(req.Key), ":all") {
+				return simnode.Delay(150 * time.Millisecond)
+			}
+			return nil
+		})
+	}
 	cons := &wireConsumer{acked: map[uint16]uint64{}}
 	d := dcp.VerifNewDcp(cfg, w.Client, cons, &couchbase.Version{Major: 7, Minor: 6}, &couchbase.BucketInfo{})
 	startDone := make(chan string, 1)
@@ -245,6 +255,9 @@ func runC13Wire(a c13WireArg) *c13WireRes {
 			res.Stored[v] = cp.Checkpoint.SeqNo
 		}
 	}
+	// requests written to a socket just before the agents were closed may still be read by the node: not activity
+	// after the return
+	time.Sleep(30 * time.Millisecond)
 	w.Node.ResetLog()
 	before := cons.count()
 	for v, st := range streams { // late documents on whatever the node still has
@@ -264,6 +277,7 @@ func runC13WireCases(c *Ctx) {
 	args := make([]c13WireArg, n)
 	for i := range args {
 		args[i] = c13WireArg{Seed: c.Rng.Int63(), Mitigation: i%2 == 1, CbMembers: i%4 >= 2}
+		args[i].SlowGets = args[i].CbMembers && i%8 >= 6 // Close() overtakes a membership monitor round (K11)
 	}
 	results := make([]*c13WireRes, n)
 	died := make([]string, n)
@@ -284,7 +298,7 @@ func runC13WireCases(c *Ctx) {
 	for i, r := range results {
 		rep := map[string]interface{}{"how": "vh child c13wire", "arg": args[i]}
 		c.Eval(fmt.Sprint("wire", args[i]), true)
-		c.Count(fmt.Sprintf("wire:mitigation=%v,couchbase-membership=%v", args[i].Mitigation, args[i].CbMembers))
+		c.Count(fmt.Sprintf("wire:mitigation=%v,couchbase-membership=%v,monitor-round-in-flight=%v", args[i].Mitigation, args[i].CbMembers, args[i].SlowGets))
 		if r == nil {
 			c.Violate("teardown-died", "the whole client against the simulated node: the process died: "+died[i], rep)
 			continue
